@@ -97,4 +97,13 @@ theorem single_sections :
     singleSection Gen.Locks.u_server_GCAServer_managedAuthorizeEquipment = true ∧
     singleSection Gen.Locks.u_server_GCAServer_getRecentReportsWithSignature = true := by decide
 
+/-- No method takes a value receiver whose type holds a mutex (it would lock a copy of the mutex - born locked if
+the original happened to be held - and protect nothing). -/
+theorem no_lock_copying_receivers : Gen.Locks.lockCopyingReceivers = [] := by decide
+
+/-- No goroutine launched inside a loop is handed a slice, map, pointer, array or channel that was declared
+outside the loop, or an alias of one: each datagram (each connection, each request) has its own buffer, which the
+next iteration of the loop cannot overwrite while the handler still waits for the mutex. -/
+theorem no_loop_shared_captures : Gen.Locks.loopSharedCaptures = [] := by decide
+
 end Gca.Tie
